@@ -549,6 +549,10 @@ def hDepsEmu : Handler := fun _ res => do
     throw "depsemu: malformed result"
   let okRun (r : List String) := r.headD "" == "ok"
   let completed := blocks.filter fun b => okRun (b.getD 1 [])
+  -- since the repair of F45 `Step` never panics (C03 `never_panics_step`): a panicking run is a failure by itself
+  if let some b := blocks.find? fun b => (b.getD 1 []).headD "" == "PANIC" || (b.getD 2 []).headD "" == "PANIC" then
+    return { oracle := some s!"the emulator panics while running block {" ".intercalate (b.headD [])}: {" ".intercalate (b.getD 1 [])} / {" ".intercalate (b.getD 2 [])}",
+             tags := ["emu-e2e", "e2e-panic"] }
   let bad := completed.find? fun b => b.getD 1 [] != b.getD 2 []
   let tags := ["emu-e2e"] ++ (if accepted > 0 then ["e2e-moved"] else ["e2e-unmoved"]) ++
     (if accepted ≥ 2 then ["e2e-moved2+"] else []) ++
